@@ -7,11 +7,15 @@ CONSTANTS
   Aliases = {"bits", "nl", "nopad", "urlsafe", "space"}
   DonorIdfs = {"absent", "right", "wrong"}
   ForgedIdfs = {"absent", "right", "wrong"}
+  RSALogs = {"L2"}
+  HashCodes = {"none", "md5", "sha1", "sha224", "sha256", "sha384", "sha512", "h7", "h8", "hx"}
+  SigAlgs = {"anon", "rsa", "dsa", "ecdsa", "s7", "s8", "sx"}
+  HdrIdfs = {"absent"}
 INIT TraceInit
 NEXT TraceNext
 VIEW TraceView
 CONSTRAINT HighWater
-INVARIANTS TraceOnlySigned TraceCosignedHeld
+INVARIANTS TraceOnlySigned TraceCosignedHeld TraceExactHeader
 PROPERTIES TraceForwardOnly
 POSTCONDITION TraceAccepted
 CHECK_DEADLOCK FALSE
